@@ -517,13 +517,14 @@ class Impl:
             timers = Timers(loop)
 
             cancel_log = {}
+            seq = itertools.count(1)
 
             class LogTask(asyncio.Task):
                 def cancel(self, msg=None):
                     # only requests made by code running in a task (a group cancelling its
                     # members): timer callbacks and the harness's own external cancel are not
                     if asyncio.current_task(loop) is not None:
-                        cancel_log.setdefault(self, []).append(loop.time())
+                        cancel_log.setdefault(self, []).append((loop.time(), next(seq)))
                     return super().cancel(msg)
             loop.set_task_factory(lambda lp, coro, **kw: LogTask(coro, loop=lp, **kw))
             evs = []
@@ -576,7 +577,8 @@ class Impl:
                             # when somebody first called cancel() on the member (task class of
                             # the harness's own loop)
                             times = cancel_log.get(m, [])
-                            mrec['cancel_seen'] = int(times[0]) if times else None
+                            mrec['cancel_seen'] = int(times[0][0]) if times else None
+                            mrec['cancel_seq'] = times[0][1] if times else None
                             mrec['done'] = m.done()
                             mrec['cancelled'] = m.done() and m.cancelled()
                             m.cancel()
@@ -588,6 +590,7 @@ class Impl:
                 def do_cancel():
                     delivered.append(not phase['done'])
                     if not phase['done']:
+                        obs['cancel_seq'] = next(seq)
                         task.cancel()
                 loop.call_at(cancel, do_cancel)
             try:
